@@ -7,6 +7,11 @@ def run(ctx, rep):
     runloop.r07b(ctx, rep)
     runloop.r07e(ctx, rep)
     runloop.r07f(ctx, rep)
+    from .common import borrow
+    borrow(ctx, rep, "R07g", "the error arm resets the machine to its initial registers, not to values remembered from the entry of "
+           "run_count: nothing but the arguments and the cycle counter is live across the interpreter loop (C13's R13c). A failure in "
+           "a later slice of a sliced evaluation would otherwise keep the frames of the earlier slices.",
+           [runloop.r13c], ["R13c"])
     runloop.r_stack_monotone(ctx, rep, "R07d")
     from . import popbalance
     popbalance.r01b(ctx, rep, rule="R07c")
